@@ -101,6 +101,9 @@ def main(pid, argv):
     ck.evaluations = len(data)
     n_fail = 0
     for (k, x), il, ml in zip(uniq, impl, model):
+        if il == "SKIPPED":
+            ck.count("impl:skipped-after-hangs")
+            continue
         if x:
             ck.distinct.add(x)
         ic, mc = C.cls(il), C.cls(ml)
